@@ -301,14 +301,30 @@ func spec_cand(l *LALR1, tr Transistor, a *Action, sy int) bool {
 //@ before_stmt [C03,C02,C14] "Digraph(X, R, lalr.ReadSet, &lalr.FollowSet)" true
 //@ loop 0: order_assumed the order of X only changes Digraph's traversal order; FollowSet is used as a set per key (Digraph-spec hypothesis, bounded)
 
+// C03 / C02: the list handed to the digraph is the WHOLE reads relation of the nonterminal transitions (the keys of DRSet):
+// every pair is a reads edge of its own source, and every reads edge of every key is in the list
 //@ func (*LALR1).CalcAllReadRelations
 //@ props C14
+//@ props_tagged_only C03 C02
 //@ order_only
+//@ results res
+//@ requires transLite(lalr) && (forall k int :: has(lalr.DRSet, k) ==> 0 <= k && k < len(lalr.trans))
+//@ ensures [C03,C02] forall n int :: 0 <= n && n < len(res) ==> has(lalr.DRSet, res[n].x) && readsOK(lalr, res[n].x, res[n].y)
+//@ ensures [C03,C02] forall x, y int :: {readsOK(lalr, x, y)} has(lalr.DRSet, x) && readsOK(lalr, x, y) ==> (exists n int :: 0 <= n && n < len(res) && res[n].x == x && res[n].y == y)
+//@ modifies nothing
+//@ loop 0: invariant [C03,C02] forall n int :: 0 <= n && n < len(res) ==> has(lalr.DRSet, res[n].x) && readsOK(lalr, res[n].x, res[n].y)
+//@ loop 0: invariant [C03,C02] forall x, y int :: {readsOK(lalr, x, y)} seen(x) && readsOK(lalr, x, y) ==> (exists n int :: 0 <= n && n < len(res) && res[n].x == x && res[n].y == y)
 //@ loop 0: order_assumed the relation list is used as a set of pairs by Digraph
 
+// C03 / C02: ... and the list handed to the second digraph contains every includes edge of every nonterminal transition
 //@ func (*LALR1).CaclIncludes
 //@ props C14
+//@ props_tagged_only C03 C02
 //@ order_only
+//@ results res
+//@ ensures [C03,C02] forall tr, ri, d, q int :: {incCand(lalr, tr, ri, d, q)} has(lalr.DRSet, tr) && incCand(lalr, tr, ri, d, q) && hasT(lalr, q, lhsID(lalr, ri)) ==> inRes(lalr, res, tr, q, lhsID(lalr, ri))
+//@ modifies nothing
+//@ loop 0: invariant [C03,C02] forall tr, ri, d, q int :: {incCand(lalr, tr, ri, d, q)} seen(tr) && incCand(lalr, tr, ri, d, q) && hasT(lalr, q, lhsID(lalr, ri)) ==> inRes(lalr, res, tr, q, lhsID(lalr, ri))
 //@ loop 0: order_assumed the relation list is used as a set of pairs by Digraph
 
 // ---------------------------------------------------------------------------------------------
